@@ -13,7 +13,8 @@ from ..common import Check, MachineryError
 from .. import tlc
 from ..tlaval import printed_values
 import genjax.adev as adev
-from genjax.adev import expectation, Dual, flip_enum, flip_mvd, normal_reparam, reinforce, flip_reinforce
+from genjax.adev import (expectation, Dual, flip_enum, flip_mvd, normal_reparam, reinforce, flip_reinforce, flip_enum_parallel,
+                         categorical_enum_parallel)
 from genjax.core import distribution
 from genjax import seed
 import genjax.distributions as D
@@ -200,6 +201,7 @@ def run(tier, argv):
         except Exception as ex:
             chk.violation(ck, f"raised {type(ex).__name__}: {str(ex).splitlines()[0][:140] if str(ex) else ''}", {"program": pname(pg)})
     run_batched_sites(chk, tier)
+    run_cond_programs(chk, tier, rng, key0)
     c = cases[len(cases) // 3]
     chk.sample({"program": pname(c[1]), "theta": str(fr(c[2])), "n_outcomes": len(c[3]), "first_outcome": str(c[3][0])[:300]})
     chk.cov["scripted_outcomes"] = n_script
@@ -273,3 +275,155 @@ def run_batched_sites(chk, tier):
                             chk.violation(ck, f"raised {type(ex).__name__}: {str(ex).splitlines()[0][:140] if str(ex) else ''}", {})
     finally:
         adev.flip = saved
+
+
+# ======================================================================================================================
+# control flow: sample sites inside the branches of a lax.cond, parallel enumeration (ADEVCond.tla)
+_PRIMS = {"enum": flip_enum, "penum": flip_enum_parallel, "mvd": flip_mvd, "rf": flip_reinforce}
+
+
+def mk_cond_program(pg):
+    def coef(blk):
+        return [float(fr(x)) for x in blk["r"]]
+
+    def run_block(blk, theta):
+        vals = []
+        for it in blk["items"]:
+            if it["k"] == "site":
+                if it["kind"] == "pcat":
+                    logits = jnp.log(jnp.stack([theta / 2, theta / 2, 1 - theta]))
+                    vals.append(jnp.asarray(categorical_enum_parallel(logits), dtype=jnp.float32))
+                else:
+                    p = theta if it["pk"] == "t" else 0.5 * (theta + vals[-1])
+                    vals.append(jnp.where(_PRIMS[it["kind"]](p), 1.0, 0.0))
+            else:
+                pred = (theta > 0.375) if it["pred"] == "th" else (vals[-1] > 0.5)
+                T, F = it["T"], it["F"]
+                vals.append(jax.lax.cond(pred, lambda th, T=T: run_block(T, th), lambda th, F=F: run_block(F, th), theta))
+        r = coef(blk)
+        if blk["rk"] == "top":
+            out = r[0] * theta
+            for i, v in enumerate(vals):
+                out = out + r[i + 1] * v * theta
+            s = sum(vals[1:], vals[0])
+            return out + r[4] * s * s
+        out = r[0] * theta
+        if len(vals) >= 1:
+            out = out + r[1] * vals[0]
+        if len(vals) >= 2:
+            out = out + r[2] * vals[0] * vals[1]
+        return out
+    return expectation(lambda theta: run_block(pg, theta))
+
+
+def cname(blk):
+    def one(it):
+        if it["k"] == "site":
+            return f"{it['kind']}:{it['pk']}"
+        return f"cond[{it['pred']}]({cname(it['T'])} | {cname(it['F'])})"
+    return ";".join(one(it) for it in blk["items"]) or "-"
+
+
+def kinds_of(blk):
+    out = set()
+    for it in blk["items"]:
+        out |= {it["kind"]} if it["k"] == "site" else kinds_of(it["T"]) | kinds_of(it["F"])
+    return out
+
+
+def penum_then_cond_on_value(blk):
+    items = blk["items"]
+    for i, it in enumerate(items):
+        if it["k"] == "cond":
+            if it["pred"] == "v" and i > 0 and items[i - 1]["k"] == "site" and items[i - 1]["kind"] == "penum":
+                return True
+            if penum_then_cond_on_value(it["T"]) or penum_then_cond_on_value(it["F"]):
+                return True
+    return False
+
+
+def run_cond_programs(chk, tier, rng, key0):
+    import os
+    known = tlc.run("ADEVCond", "ADEVCond_known.cfg", workers=1, timeout=600, allow_violation=True)
+    if known.invariant_violated != "Unbiased":
+        raise MachineryError("ADEVCond_known.cfg (interpreter of the pinned commit: cond remainder applied to the branch estimate) was not refuted")
+    chk.cov.setdefault("defect_models_refuted", []).append("ADEVCond_known.cfg: Unbiased")
+    tlc.cleanup(known)
+    cases = []
+    for cfg in (("ADEVCond_q.cfg", "ADEVCond_q2.cfg") if tier == "quick" else ("ADEVCond_t.cfg", "ADEVCond_t2.cfg", "ADEVCond_t3.cfg")):
+        with open(os.path.join(tlc.SPECS, "gen", "C11_cond_print.cfg"), "w") as f:
+            f.write(open(os.path.join(tlc.SPECS, cfg)).read() + "INVARIANT PrintCase\n")
+        res = tlc.run("ADEVCond", "gen/C11_cond_print.cfg", workers=16, timeout=3400)
+        chk.add_tlc(res, cfg + " (Unbiased, EnumExact; programs with sites inside cond branches, parallel enumeration)")
+        cases += printed_values(res.stdout, '<<"CCASE"') + printed_values(res.stdout, '<< "CCASE"')
+        tlc.cleanup(res)
+    if len(cases) < 300:
+        raise MachineryError(f"ADEVCond.tla printed {len(cases)} cases")
+    byprog = {}
+    for (_, pg, th, ex, sup) in cases:
+        byprog.setdefault(cname(pg), (pg, []))[1].append((th, ex, sup))
+    names = sorted(byprog)
+    enum_only = [n for n in names if kinds_of(byprog[n][0]) <= {"enum", "penum", "pcat"}]
+    mixed = [n for n in names if n not in enum_only]
+    n_each = 22 if tier == "quick" else 250
+    todo = rng.sample(enum_only, min(n_each, len(enum_only))) + rng.sample(mixed, min(n_each, len(mixed)))
+    fam = [n for n in enum_only if penum_then_cond_on_value(byprog[n][0])]
+    todo += [n for n in fam[:2] if n not in todo]          # the recorded finding is exercised on every run
+    pc = [n for n in enum_only if "pcat" in kinds_of(byprog[n][0]) and n not in todo]
+    todo += rng.sample(pc, min(4 if tier == "quick" else 40, len(pc)))
+    nkeys = 300 if tier == "quick" else 3000
+    for name in todo:
+        pg, rows = byprog[name]
+        E = mk_cond_program(pg)
+        exact_only = name in enum_only
+        try:
+            f = jax.jit(jax.vmap(lambda k, th: seed(lambda: E.jvp_estimate(Dual(th, jnp.ones_like(th))))(k), in_axes=(0, None)))
+            ge = jax.jit(lambda k, th: seed(E.estimate)(k, th))
+            gg = jax.jit(lambda k, th: seed(E.grad_estimate)(k, th))
+        except Exception as ex_:
+            chk.violation(f"adev-cond|{name}", f"raised {type(ex_).__name__}", {})
+            continue
+        for (th, ex, sup) in rows:
+            theta = float(fr(th))
+            ck = f"adev-cond|{name}|theta={fr(th)}"
+            chk.case(ck)
+            chk.validated(1)
+            ep, et = float(fr(ex[0])), float(fr(ex[1]))
+            support = [(float(fr(p)), float(fr(t)), float(fr(pr))) for (pr, p, t) in sup]
+            bad = []
+            try:
+                kk = jax.random.fold_in(key0, hash(ck) % 100000)
+                n = 4 if exact_only else nkeys
+                d = f(jax.random.split(kk, n), jnp.asarray(theta, dtype=jnp.float32))
+                ps, ts = np.asarray(d.primal), np.asarray(d.tangent)
+                for a, b in zip(ps, ts):
+                    if not any(abs(a - sp) <= 2e-4 * (1 + abs(sp)) and abs(b - st) <= 2e-4 * (1 + abs(st)) for (sp, st, _) in support):
+                        bad.append(f"observed (primal, tangent) = ({a}, {b}) is not an outcome of the specification (exact value {ep}, derivative {et})")
+                        break
+                if exact_only:
+                    v = ge(kk, jnp.asarray(theta, dtype=jnp.float32))
+                    if abs(float(v) - ep) > 2e-4 * (1 + abs(ep)):
+                        bad.append(f"estimate {float(v)} expected the exact value {ep}")
+                    try:
+                        gr = gg(kk, jnp.asarray(theta, dtype=jnp.float32))
+                        if abs(float(gr) - et) > 2e-4 * (1 + abs(et)):
+                            bad.append(f"grad_estimate {float(gr)} expected the exact derivative {et}")
+                    except NotImplementedError as ex_:
+                        if penum_then_cond_on_value(pg) and "stop_gradient" in str(ex_):
+                            # recorded finding: reverse mode through a cond that JAX vectorised over the enumerated value
+                            if chk.violation("family=parallel-enum-then-cond-on-value|grad_estimate",
+                                             f"grad_estimate raised NotImplementedError (transpose of stop_gradient), e.g. {name}", {"program": name}):
+                                pass
+                        else:
+                            raise
+                else:
+                    for what, xs, want in (("tangent", ts, et), ("primal", ps, ep)):
+                        sd = float(np.std(xs)) / math.sqrt(n)
+                        if abs(float(np.mean(xs)) - want) > 6.5 * sd + 2e-4:
+                            bad.append(f"mean {what} {float(np.mean(xs))} deviates from the exact {want} by more than 6.5 standard errors ({sd})")
+            except Exception as ex_:
+                bad.append(f"raised {type(ex_).__name__}: {str(ex_).splitlines()[0][:140] if str(ex_) else ''}")
+            if bad:
+                chk.violation(ck, "; ".join(bad[:2]), {"program": name})
+    chk.cov["cond_programs_run"] = len(todo)
+    chk.cov["cond_programs_in_model"] = len(names)
